@@ -506,8 +506,10 @@ impl Python {
                     format!(
                         "{indent}\"\"\"\n{indented_comments}\n{indent}\"\"\"",
                         indent = indent,
+                        // keep backslashes and quotes from ending or changing the string literal
                         indented_comments = comments
                             .iter()
+                            .map(|v| v.replace('\\', "\\\\").replace("\"\"\"", "\\\"\\\"\\\""))
                             .map(|v| format!("{}{}", indent, v))
                             .collect::<Vec<String>>()
                             .join("\n"),
